@@ -229,9 +229,9 @@ def _run_pure(job):
             env.forget()
             try:
                 cfg = _cfg(job)  # constructing the configuration is part of the call history
+                before = _cfg_js(cfg)  # snapshot before any library call sees the object
                 plain = MazeDataset.generate(_strip_filters(cfg), gen_parallel=False)
                 d1 = _dump(plain)
-                before = _cfg_js(cfg)
                 via = MazeDataset.from_config(cfg, load_local=False, save_local=False, do_download=False)
                 after = _cfg_js(cfg)
                 again = MazeDataset.generate(_strip_filters(_cfg(job)), gen_parallel=False)
@@ -349,14 +349,16 @@ def jobs(tier, seed):
     kw = {"gen_dfs": [{}, dict(accessible_cells=5, max_tree_depth=4), dict(do_forks=False), dict(randomized_stack=True)],
           "gen_prim": [{}, dict(accessible_cells=6)], "gen_wilson": [{}], "gen_percolation": [dict(p=0.5), dict(p=0.3, start_coord=[0, 0])],
           "gen_dfs_percolation": [dict(p=0.2), dict(p=0.4, accessible_cells=5)]}
-    eps = [{}, dict(deadend_start=True, endpoints_not_equal=True), dict(allowed_start=[[0, 0], [1, 1]], allowed_end=[[2, 2], [1, 0]])]
+    eps = [{}, dict(deadend_start=True, endpoints_not_equal=True), dict(allowed_start=[[0, 0], [1, 1]], allowed_end=[[2, 2], [1, 0]]),
+           # every endpoint option spelled out, defaults included (a key that is present must still be present afterwards)
+           dict(except_when_invalid=True, deadend_start=False, deadend_end=True, endpoints_not_equal=False, allowed_start=[[0, 0], [0, 1], [1, 1]], allowed_end=None)]
     fls = [[], [["path_length", [], {"min_length": 3}]], [["path_length", [], {"min_length": 2}], ["truncate_count", [], {"max_count": 2}]]]
     k = 0
     for gen in GENS:
         for kwargs in kw[gen]:
             for s in (0, 1, 42):
                 for n in ((3,) if q else (2, 3, 4)):
-                    ep = eps[k % 3] if n >= 3 else {}
+                    ep = eps[k % 4] if n >= 3 else {}
                     fl = fls[k % 3]
                     k += 1
                     out.append(dict(h="pure", gen=gen, kwargs=kwargs, seed=s, n=n, n_mazes=3 if n >= 3 else 2, endpoint=ep, filters=fl))
